@@ -14,6 +14,7 @@ import (
 // contract (modular), inlinable function, interface dispatch, or unknown.
 func (fr *Frame) doCall(cc *ssa.CallCommon, fnv Value, args []Value, pc *Term, st *State, pos token.Pos, site *ssa.Call) callResult {
 	ex := fr.ex
+	fr.curSite = site
 	var resT types.Type = cc.Signature().Results()
 	if cc.Signature().Results().Len() == 1 {
 		resT = cc.Signature().Results().At(0).Type()
